@@ -111,6 +111,31 @@ theorem unit0_unconfigured_on_tcp {σ : Type} (cfg : ServerCfg σ) (hs : List (N
     handleFrame cfg hs f = ⟨none, [], hs⟩ :=
   silent_unless_addressed cfg hs f (unit0_ordinary_on_tcp cfg f h) (by rw [hd]; exact hl) ha
 
+/-! ## Sessions with an authorization handler (TLS with role certificates)
+
+The statement of C17 is not limited to sessions without authorization.  With a handler configured
+the discipline is: an *allowed* (or malformed) frame for an unconfigured unit is met with silence
+exactly as above, and a *denied* one is answered with exception 01 — the authorization question
+precedes unit dispatch, which is what C08 prescribes for all unit ids.  Both halves are stated;
+the second is the one point where C08 takes precedence over the wording of C17 (DESIGN.md §3). -/
+
+/-- whatever the authorization configuration: no reply, no handler call and no state change for a
+    frame to an unconfigured unit, unless the authorization handler denies the request it denotes -/
+theorem silent_unless_addressed_or_denied {σ : Type} (cfg : ServerCfg σ) (hs : List (Nat × σ))
+    (f : Frame) (hb : isBroadcast cfg f = false) (hl : lookupUnit hs f.dest = none)
+    (hok : ∀ req, requestOf f = some req → cfg.allows f.dest req = true) :
+    (handleFrame cfg hs f).reply = none ∧ (∀ c ∈ (handleFrame cfg hs f).calls, c.isAuth = true)
+      ∧ (handleFrame cfg hs f).states = hs :=
+  C01.unconfigured_silent cfg hs f hb hl hok
+
+/-- the excluded point, stated outright: a denied request is answered with exception 01 even when
+    its unit id is not configured (no handler runs, no state changes) -/
+theorem denied_answered_even_if_unconfigured {σ : Type} (cfg : ServerCfg σ) (hs : List (Nat × σ))
+    (f : Frame) (req : Request) (hreq : requestOf f = some req)
+    (hb : isBroadcast cfg f = false) (hd : cfg.allows f.dest req = false) :
+    handleFrame cfg hs f = ⟨some [req.fc.toByte + 128, 1], cfg.question f.dest req, hs⟩ := by
+  rw [handleFrame_request cfg hs f hreq, orErr_toByte]; simp [hd, hb]
+
 /-! ## Non-vacuity -/
 
 open Demo
